@@ -463,6 +463,9 @@ class Merger:
             return self._merge_simple_lists(lhs, rhs, path, node_coord)
 
         # No RHS list
+        if not isinstance(lhs, CommentedSeq):
+            raise MergeException(
+                "Impossible to add Array data to non-Array destination.", path)
         return lhs
 
     def _merge_sets(
@@ -485,6 +488,10 @@ class Merger:
         Raises:
         - `MergeException` when a clean merge is impossible.
         """
+        if not isinstance(lhs, CommentedSet):
+            raise MergeException(
+                "Impossible to add Set data to non-Set destination.", path)
+
         merge_mode = self.config.set_merge_mode(node_coord)
         if merge_mode is SetMergeOpts.LEFT:
             return lhs
